@@ -8,7 +8,7 @@
 import sys, os, subprocess, json, shutil, time
 
 REPO = "/repo"
-WT = "/tmp/seedchk"
+WT = os.environ.get("SEEDCHK", "/tmp/seedchk")
 
 
 def sh(cmd, timeout=None, **kw):
